@@ -78,6 +78,7 @@ def run(ctx):
     check_ops_before_open(P, ctx)
     check_drain_loops(P, ctx, tables)
     check_active_fd_share(P, ctx)
+    check_epoll_del_tolerance(P, ctx)
     check_fd_ownership(P, ctx)
     check_owner_false(P, ctx, tables)
     check_resource_asserts(P, ctx)
@@ -788,6 +789,77 @@ def check_files(P, ctx, tables):
                      "a file that belongs to another socket", loc=srv.loc(bad[0]))
     else:
         r8.ok("the path to unlink is recorded only on the success edge of bind()", "path exploration")
+    # ... and no later than that: a failure AFTER the bind (listen, say) goes through the common clean-up, which unlinks
+    # the recorded path - so on every failing exit behind a successful bind the path has been recorded (or unlinked)
+    r8.instance("%s: failure exits after bind" % srv.qname)
+    left = []
+    nfail = [0]
+
+    # the recording may itself be conditional (only the file-system flavour creates a file): the other outcome of that
+    # condition means there is nothing to record
+    rec_guards = {}
+    for c in srv.calls():
+        n = srv.nodes[c]
+        if n.get("callee") in ("strcpy", "strncpy", "memcpy", "snprintf") and n["args"] and srv.fields_of(n["args"][0])[-1:] == ("path",):
+            wb = srv.where()[c][0]
+            for b, cond in C.cond_blocks(srv):
+                l, opx, rr = C.cond_atom(srv, cond, True)
+                ln = srv.sn(l)
+                # only tests of WHAT KIND of socket this is (a comparison of the ops table, a static predicate on the
+                # socket) - not the outcome of a system or library call
+                kind_test = (ln["k"] == "call" and any(d.static and d.file == srv.file for d in P.callees(srv, ln["id"])[0])) or \
+                            (ln["k"] in ("call", "member", "ref") and not isinstance(rr, tuple) and srv.sn(rr)["k"] == "un" and srv.sn(rr)["op"] == "&")
+                if not kind_test:
+                    continue
+                for lab in ("T", "F"):
+                    if wb in C.only_via_edge(srv, b, lab):
+                        rec_guards[b.id] = lab
+
+    class Recorded(S.SeqRule):
+        def user0(s2, fn):
+            return (None, False)          # (bind call, path recorded or unlinked)
+
+        def inline(s2, fn, nid, callee):
+            return False
+
+        def on_branch(s2, fn, st, blk, cond, label):
+            if fn is srv and blk.id in rec_guards and label in ("T", "F") and label != rec_guards[blk.id] and st.user[0] is not None:
+                return (st.user[0], True)
+            return None
+
+        def on_call(s2, fn, st, nid, callees, exts):
+            n = fn.nodes[nid]
+            b, rec = st.user
+            if "bind" in exts:
+                return (nid, False)
+            if n.get("callee") in ("strcpy", "strncpy", "memcpy", "snprintf") and n["args"] and fn.fields_of(n["args"][0])[-1:] == ("path",):
+                return (b, True)
+            if "unlink" in exts:
+                return (b, True)
+            return None
+
+        def on_exit(s2, fn, st, ret_nid, ret_cls, top):
+            b, rec = st.user
+            if not top or ret_cls != S.NEG or b is None:
+                return
+            c = st.get(("call", b))
+            bound = c in (S.ZERO, S.NONNEG, S.POS)
+            if not bound:
+                for k, v in st.vals:
+                    if isinstance(k, tuple) and k[0] == "src" and v == ("call", b) and st.get(k[1]) in (S.ZERO, S.NONNEG, S.POS):
+                        bound = True
+            if bound:
+                nfail[0] += 1
+                if not rec and not left:
+                    left.append(ret_nid)
+    S.run(Recorded(P), srv)
+    if left:
+        r8.violation("%s:file-left-on-failure" % srv.name, "%s can fail after bind() has created the socket file without having recorded (or removed) its path: the file "
+                     "stays behind and every later server on that address fails with EADDRINUSE" % srv.name, loc=srv.loc(left[0]) if left[0] else srv.file)
+    elif nfail[0] >= 1:
+        r8.ok("every failure exit behind a successful bind has the path recorded for the clean-up", "path exploration")
+    else:
+        r8.ok("no fallible step follows the bind", "path exploration")
     dn = [f for f in P.fns_in("ux/xcm_tp_ux.c") if any(True for _ in f.calls("unlink"))]
     r8.instance("unlink in the ux transport")
     okd = False
@@ -1137,3 +1209,47 @@ def check_active_fd_share(P, ctx):
                             "through a nested epoll instance) EPOLL_CTL_ADD fails with EINVAL and the process is aborted by reg_epoll_mod's assertion" % (users, LIMIT + 1), loc=f.loc(cond))
     if n < 1:
         raise Broken("C08.R12: the sharing test of active_fd.c was not found")
+
+
+def check_epoll_del_tolerance(P, ctx):
+    """R13: a descriptor number the library has already closed (UX deinit closes before it deregisters; the kernel drops
+    registrations implicitly at close) may meanwhile belong to anything another thread opened.  EPOLL_CTL_DEL on such a
+    number fails with EBADF (closed), ENOENT (a different file) or EPERM (a file that cannot be polled).  The wrapper's
+    failure branch aborts the process, so all three must be among the errnos it forgives."""
+    r = ctx.rule("C08.R13", "a failing EPOLL_CTL_DEL is survivable for every errno a stale descriptor number can produce (EBADF, ENOENT, EPERM)")
+    NEED = {9: "EBADF", 2: "ENOENT", 1: "EPERM"}
+    n = 0
+    for f in P.fns_in("core/xpoll.c"):
+        for c in f.calls("epoll_ctl"):
+            if C.const_of(f, f.nodes[c]["args"][1]) != 2:        # EPOLL_CTL_DEL
+                continue
+            n += 1
+            r.instance("%s: %s" % (f.qname, f.show(c)[:60]))
+            # the variable holding errno after the call, and the constants it is compared with on the way to the abort
+            wb = f.where()[c][0]
+            reach = C.reachable_blocks(f, wb)
+            forgiven = set()
+            aborting = False
+            for b, cond in C.cond_blocks(f):
+                if b.id not in reach:
+                    continue
+                l, op, rr = C.cond_atom(f, cond, True)
+                if isinstance(rr, tuple):
+                    continue
+                k = C.const_of(f, rr)
+                ln = f.sn(l)
+                if k is not None and op in ("!=", "==") and (f.show(l) == "errno" or (ln["k"] == "ref" and "errno" in ln["name"])):
+                    forgiven.add(k)
+            for bb in reach:
+                if f.blocks[bb].noreturn:
+                    aborting = True
+            missing = [nm for k, nm in NEED.items() if k not in forgiven]
+            if not aborting:
+                r.ok("%s: a failing EPOLL_CTL_DEL does not end the process" % f.qname, "no aborting block after the call")
+            elif missing:
+                r.violation("%s:EPOLL_CTL_DEL:%s" % (f.name, "+".join(missing)), "%s aborts the process when EPOLL_CTL_DEL fails with %s: the descriptor number was closed before and "
+                            "may have been reused by another thread for a file of any kind" % (f.name, "/".join(missing)), loc=f.loc(c))
+            else:
+                r.ok("%s forgives EBADF, ENOENT and EPERM from EPOLL_CTL_DEL" % f.qname, "errno comparisons on the path to the abort")
+    if n < 1:
+        raise Broken("C08.R13: no EPOLL_CTL_DEL in xpoll.c")
